@@ -148,8 +148,10 @@ SQL_DDL = """
         batch_num_samp               NDARRAY,
         method_samp                  NDARRAY
     );
+"""
 
-    DELETE FROM checkpoint;
+SQL_DELETE_QUERY = """
+    DELETE FROM checkpoint
 """
 
 
@@ -348,6 +350,9 @@ def save_calibrator_state(  # noqa: PLR0913
         cursor = connection.cursor()
         cursor.execute(SQL_SAVE_USER_VERSION)
         cursor.executescript(SQL_DDL)
+
+        # replace the previous checkpoint within the same transaction of the insert
+        cursor.execute(SQL_DELETE_QUERY)
 
         cursor.execute(
             SQL_SAVE_QUERY,
